@@ -3,6 +3,7 @@ import Driver.LexD
 import Driver.ConstructD
 import Driver.ViewsD
 import Driver.NumExprD
+import Driver.CostD
 /-
 One line in, one line out.  First word selects the model.
 Run: `lake env lean --run Driver/Main.lean < ops.txt`
@@ -14,6 +15,7 @@ structure World where
   lex : LexWorld := {}
   views : ViewsWorld := {}
   num : NumWorld := {}
+  cost : CostWorld := {}
 
 def step (w : World) (line : String) : World × String :=
   match splitWords line with
@@ -21,6 +23,7 @@ def step (w : World) (line : String) : World × String :=
   | "L" :: rest => let (s, out) := lexStep w.lex rest; ({ w with lex := s }, out)
   | "C" :: rest => (w, constructStep rest)
   | "N" :: rest => let (s, out) := numStep w.num rest; ({ w with num := s }, out)
+  | "Q" :: rest => let (s, out) := costStep w.cost rest; ({ w with cost := s }, out)
   | "V" :: rest => let (v, out) := viewsStep w.views rest; ({ w with views := v }, out)
   | ["reset"] => ({}, "ok")
   | _ => (w, "!bad-op")
